@@ -151,7 +151,7 @@ func genC15Literal(g *Gen) {
 	}
 	rec(nil)
 	depth := g.N(1, 2)
-	for _, o := range []int64{0, 64} {
+	for _, o := range []int64{0, -64} {
 		type act func(h *c15Hist)
 		alpha := []act{
 			func(h *c15Hist) { h.Compact() },
@@ -186,12 +186,12 @@ func genC15Literal(g *Gen) {
 			}
 		}
 	}
-	g.Exhaust = append(g.Exhaust, fmt.Sprintf("literal: all TailBitmap{Offset,Words} with 0..3 words over {0, all-ones, all-ones minus bit 0, all-ones minus bit 63, bits 0 and 63} for Offset in {0,64}, followed by every sequence of 0..%d calls of a 9-call alphabet, Get and Get1 probed at every word-edge and set-edge position after every call", depth))
+	g.Exhaust = append(g.Exhaust, fmt.Sprintf("literal: all TailBitmap{Offset,Words} with 0..3 words over {0, all-ones, all-ones minus bit 0, all-ones minus bit 63, bits 0 and 63} for Offset in {0,-64}, followed by every sequence of 0..%d calls of a 9-call alphabet, Get and Get1 probed at every word-edge and set-edge position after every call", depth))
 
 	// (L2) structured random literals and histories
-	nh := g.N(1200, 20000)
+	nh := g.N(1200, 12000)
 	for k := 0; k < nh; k++ {
-		o := int64(64 * g.R.Pick(0, 0, 1, 2, 10, 1000, 1023, 1024, 1025, 2048, 1<<20, 1<<33))
+		o := int64(64 * g.R.Pick(0, 0, 1, 2, 10, 1000, 1023, 1024, 1025, 2048, 1<<20, 1<<33, -1, -2, -3, -1000, -(1 << 33)))
 		n := g.R.Range(0, 6)
 		if g.R.Intn(8) == 0 {
 			n = g.R.Range(7, 40)
@@ -303,7 +303,7 @@ func genC15Literal(g *Gen) {
 func genC15Words(g *Gen) {
 	nh := g.N(600, 10000)
 	for k := 0; k < nh; k++ {
-		o := int64(64 * g.R.Pick(0, 0, 1, 2, 10, 1000, 1<<20, 1<<33))
+		o := int64(64 * g.R.Pick(0, 0, 1, 2, 10, 1000, 1<<20, 1<<33, -1, -2, -5, -(1 << 33)))
 		h := c15New(o)
 		W := int64(g.R.Range(1, 6))
 		nmut := g.R.Range(0, 40)
